@@ -36,7 +36,7 @@ theorem chunk_kw_rejects_unknown (r : String) (sn dn : Option Val) (ydim : Nat)
     chunkTaskKw r sn dn ydim kw = .error .valueError := by
   simp [chunkTaskKw, resamplingS2rio, h, bind, Except.bind]
 
-example : ∃ k, chunkTaskKw "Cubic" (some (.num 7)) none 1 [("num_threads", "2"), ("name", "x")] = .ok k ∧
-    k.resampling = "cubic" ∧ k.extra = [("num_threads", "2")] := ⟨_, by decide, by decide, by decide⟩
+example : (chunkTaskKw "Cubic" (some (.num 7)) none 1 [("num_threads", "2"), ("name", "x")]).toOption =
+    some ⟨"cubic", some (.num 7), none, 1, [("num_threads", "2")]⟩ := by decide +kernel
 
 end OdcGeo.C13
